@@ -4,7 +4,10 @@
    executable forms of the property: Model/FocusCheck.v. *)
 From Coq Require Import List ZArith NArith String Bool.
 From SCC Require Import Lang.CoreSyn Model.Backend Model.Uniquify Model.Focus Model.FocusCheck
-     Sem.AxSem Sem.CoreSem Proof.SubstProof Proof.FocusTheorems Proof.FocusExtra Proof.FocusExamples Proof.FocusSem.
+     Sem.AxSem Sem.CoreSem Proof.SubstProof Proof.FocusTheorems Proof.FocusExtra Proof.FocusExamples Proof.FocusSem
+     Proof.FocusKont Proof.FocusRel Proof.FocusSim Proof.FocusRun Proof.FocusFrag Proof.FocusPres Proof.FocusPresExamples
+     Proof.UqAeq Proof.UqPres Proof.UqCompose Proof.FocusRefute Proof.FocusTyped.
+From SCC Require Import Model.FocusGuard.
 Import ListNotations.
 
 (* ---- uniqueness of binders -------------------------------------------------------------------
@@ -100,10 +103,13 @@ Proof. exact subst_not_free_stmt. Qed.
 Print Assumptions C03_subst_sim_not_free_identity.
 
 (* ---- semantic preservation ----------------------------------------------------------------------
-   Full statement (NOT proved; evaluated by modelrun `focus` on every case: run_core on the input vs
+   Full statement (evaluated by modelrun `focus` on every case: run_core on the input vs
    run_fs on the Rust output, verdict classes order-of-effects / semantic-mismatch): a run of the
    original that ends defined (exit value or undefined arithmetic) is reproduced, prints in the same
-   order, by the focused program. *)
+   order, by the focused program.  As stated - with the shape predicates as the only hypotheses - it is
+   FALSE (C03_focus_preserves_statement_refuted at the end of this file: an ill-typed witness); it is
+   proved with the additional hypotheses cs_prog and clash_free_prog / sg_prog that typing implies
+   (C03_uniquify_focus_preserves_partial / _fragment). *)
 Definition C03_focus_preserves_statement : Prop :=
   forall p q args fuel, pre_check p = true -> focus_wf p = true -> focus_prog p = Ok q ->
     let o := run_core fuel p args in
@@ -125,3 +131,170 @@ Theorem C03_focus_preserves_partial :
       run_fs fuel q args = run_core fuel p args /\ snd (run_core fuel p args) <> OOutOfFuel.
 Proof. exact focus_preserves_straight_line. Qed.
 Print Assumptions C03_focus_preserves_partial.
+
+(* ---- semantic preservation, round 2 ---------------------------------------------------------------
+   A simulation between the Core machine on a program whose identifiers are all <= max_id (what
+   `uniquify` returns) and the same machine on the embedding of its focused form (run_fs).
+   Relation (Proof/FocusRel.v): values component-wise; a closure over code s is related to the closure
+   over `focus s`; the machine-internal continuation values have no homomorphic image, focusing turns
+   them into code:  KRet m ~ mu~-closure over the statement `bind`'s continuation built,
+   PDelay m ~ by-name thunk over it;  target environment = source environment + the fresh bindings.
+   Each source transition is matched by zero or more target transitions (Proof/FocusMain.v sim_step:
+   every constructor of the language, every arm of Cut::focus, every Bind impl).
+
+   KIND CLASH (Proof/FocusSim.v clash_config): the untyped machine lets a by-name producer value
+   (PThunk/PDelay/a mu at a codata cut) meet a by-value return continuation (KRet); the two machines
+   treat that differently (after focusing KRet is a mu~-closure, which the machine serves before it
+   forces a thunk).  Typing excludes it (KRet comes from a mu of a NON-codata type, by-name values have
+   codata types) but the framework has no Core type system, so the theorems take either
+     - the run-time hypothesis clash_free (no such configuration in the first `fuel` transitions), or
+     - the static guard sg_prog bn kr with bn && kr = false (Proof/FocusFrag.v):
+         sg_prog false _ : no mu-abstraction of a codata type in an argument position, no cut at a
+                           codata type whose producer is a mu  (then no by-name value ever exists);
+         sg_prog _ false : no producer mu-abstraction of a non-codata type in an argument position
+                           (then no KRet ever exists).
+   Everything else of the language is covered: operators nested to any depth with effects in the
+   operands, constructor/destructor/call/ifc/print/exit arguments, mu/mu~, case/cocase, calls,
+   recursion, data and codata values. *)
+
+(* `Bind` as a lemma of its own: [bind a k] first evaluates the argument a exactly as the machine does
+   (innermost non-values first, left to right, each once), then behaves as what k builds for the name
+   of the value - provided k is the code of the machine continuation m (mk_rel). *)
+Theorem C03_bind_correct :
+  forall ps qt M0, focused_defs M0 ps qt ->
+  forall a k c mc s' m2 e e' m fuel out,
+    bind_arg a k mc = Ok (s', m2) -> (M0 <= c)%N -> (c <= mc)%N -> ids_le_arg M0 a = true ->
+    env_rel ps M0 e e' -> mk_rel ps M0 c m k e' ->
+    clash_free ps fuel (Arg a e m) = true -> good_end (snd (crun fuel ps (Arg a e m) out)) ->
+    exists fuel', crun fuel' qt (Run (fs2c_stmt s') e') out = crun fuel ps (Arg a e m) out.
+Proof. exact bind_correct. Qed.
+Print Assumptions C03_bind_correct.
+
+(* statements (every arm of Cut::focus, IfC, Call, PrintI64, Exit) *)
+Theorem C03_focus_stmt_correct :
+  forall ps qt M0, focused_defs M0 ps qt ->
+  forall s mc s' m2 e e' fuel out,
+    focus_stmt s mc = Ok (s', m2) -> (M0 <= mc)%N -> ids_le_stmt M0 s = true -> env_rel ps M0 e e' ->
+    clash_free ps fuel (Run s e) = true -> good_end (snd (crun fuel ps (Run s e) out)) ->
+    exists fuel', crun fuel' qt (Run (fs2c_stmt s') e') out = crun fuel ps (Run s e) out.
+Proof. exact focus_stmt_correct. Qed.
+Print Assumptions C03_focus_stmt_correct.
+
+(* Prog::focus = uniquify, then focus: the focused program reproduces every defined run (exit value or
+   undefined arithmetic, prints in order) of the UNIQUIFIED program p1 that meets no kind clash.
+   Gap to C03_focus_preserves_statement: the clash hypothesis (typing), and run_core p1 = run_core p
+   (C03_uniquify_preserves below). *)
+Theorem C03_focus_preserves_uniquified_partial :
+  forall p p1 q args fuel,
+    pre_check p = true -> focus_wf p = true -> uniquify_prog p = Ok p1 -> focus_prog p = Ok q ->
+    clash_free_prog fuel p1 args = true -> good_end (snd (run_core fuel p1 args)) ->
+    exists fuel', run_fs fuel' q args = run_core fuel p1 args.
+Proof. exact focus_prog_preserves_uniquified. Qed.
+Print Assumptions C03_focus_preserves_uniquified_partial.
+
+(* the same with the static guard in place of the run-time hypothesis *)
+Theorem C03_focus_preserves_guarded_partial :
+  forall bn kr p p1 q args fuel,
+    pre_check p = true -> focus_wf p = true -> uniquify_prog p = Ok p1 -> focus_prog p = Ok q ->
+    bn && kr = false -> sg_prog bn kr p1 = true ->
+    good_end (snd (run_core fuel p1 args)) ->
+    exists fuel', run_fs fuel' q args = run_core fuel p1 args.
+Proof. exact focus_prog_preserves_guarded. Qed.
+Print Assumptions C03_focus_preserves_guarded_partial.
+
+(* the hypotheses are satisfiable by non-trivial programs: nested effectful operands whose print order
+   1 2 3 is observable; effectful constructor and call arguments with a case; the fun2core output of
+   examples/Lists/Lists.sc (guard "no by-name value", both programs run to the same exit) *)
+Theorem C03_focus_preserves_nonvacuous :
+  checks ex_order false true 100 200 [] ([(false, 1); (false, 2); (false, 3)], OExit 70)%Z = true /\
+  checks ex_data false true 100 300 [] ([(false, 1); (false, 2); (false, 3); (true, 1)], OExit 1)%Z = true /\
+  checks_str ex_lists (100 * 50) (100 * 200) = true.
+Proof. exact (conj ex_order_ok (conj ex_data_ok ex_lists_ok)). Qed.
+(* ... and a program mixing by-name and by-value mu-abstractions (outside both syntactic guards, typed) *)
+Theorem C03_focus_preserves_typed_nonvacuous :
+  negb (sg_prog false true ex_mixed) && negb (sg_prog true false ex_mixed) &&
+  pre_check ex_mixed && focus_wf ex_mixed && cs_prog ex_mixed && tc_prog ex_mixed && tc_entry ex_mixed && static_ok ex_mixed &&
+  match focus_prog ex_mixed with
+  | Ok q => obs_eqb (run_core 100 ex_mixed []) ([(false, 1)], OExit 42)%Z && obs_eqb (run_fs 300 q []) ([(false, 1)], OExit 42)%Z
+  | Err _ => false
+  end = true.
+Proof. exact ex_mixed_ok. Qed.
+Print Assumptions C03_focus_preserves_typed_nonvacuous.
+Print Assumptions C03_focus_preserves_nonvacuous.
+
+(* ---- uniquify preserves behaviour -------------------------------------------------------------------
+   alpha-renaming: the uniquified program has the SAME observation as the input for every fuel and every
+   argument tuple (stuck and out-of-fuel runs included; lock-step simulation, Proof/UqSim.v).
+   Hypotheses: every identifier <= max_id (part of pre_check; otherwise a fresh name can capture, see
+   C03_focus_captures_when_id_above_max_refuted), the shape focus_wf (subst_sim does not panic), and
+   cs_prog (Proof/UqAeq.v): every occurrence refers to a binder of its own chirality - implied by typing;
+   uniquify keeps separate substitution lists for variables and covariables, so an occurrence of the
+   wrong chirality is left un-renamed (both programs are then stuck, with different messages).
+   Binder ids may be 0 or not, mixed (the stated precondition "all ids 0" is the special case). *)
+Theorem C03_uniquify_preserves :
+  forall p p1,
+    uniquify_prog p = Ok p1 -> focus_wf p = true -> forallb (ids_le_def (cpmax p)) (cpdefs p) = true ->
+    cs_prog p = true ->
+    forall fuel args, run_core fuel p1 args = run_core fuel p args.
+Proof. exact uniquify_preserves. Qed.
+Print Assumptions C03_uniquify_preserves.
+
+(* ---- uniquify + focus: C03_focus_preserves_statement on the fragment ----------------------------------
+   `Prog::focus` reproduces every defined run of its input (exit value or undefined arithmetic, prints in
+   order).  Beyond the hypotheses of C03_focus_preserves_statement: cs_prog (above) and the absence of
+   kind clashes, either on the run (clash_free_prog) or by the static guard sg_prog bn kr with
+   bn && kr = false (see the comment above C03_bind_correct).  Both are consequences of typing; what is
+   missing for the unrestricted statement is a Core type system and its preservation by the machine. *)
+Theorem C03_uniquify_focus_preserves_partial :
+  forall p q args fuel,
+    pre_check p = true -> focus_wf p = true -> cs_prog p = true -> focus_prog p = Ok q ->
+    clash_free_prog fuel p args = true -> good_end (snd (run_core fuel p args)) ->
+    exists fuel', run_fs fuel' q args = run_core fuel p args.
+Proof. exact uniquify_focus_preserves. Qed.
+Print Assumptions C03_uniquify_focus_preserves_partial.
+
+Theorem C03_uniquify_focus_preserves_fragment :
+  forall bn kr p q args fuel,
+    pre_check p = true -> focus_wf p = true -> cs_prog p = true -> focus_prog p = Ok q ->
+    bn && kr = false -> sg_prog bn kr p = true ->
+    good_end (snd (run_core fuel p args)) ->
+    exists fuel', run_fs fuel' q args = run_core fuel p args.
+Proof. exact uniquify_focus_preserves_guarded. Qed.
+Print Assumptions C03_uniquify_focus_preserves_fragment.
+
+(* ---- typed programs --------------------------------------------------------------------------------------
+   tc_prog (Model/FocusGuard.v) is a boolean type checker for Core with exact annotations (an occurrence
+   carries the type of its binder, a cut the type of both sides, xtor arguments and clause contexts follow
+   the declaration of the type, call arguments the parameters of the callee); typing of machine states is
+   preserved by every transition and a typed configuration is no kind clash (Proof/FocusTyped.v). *)
+Theorem C03_typed_clash_free :
+  forall p, tc_prog p = true -> tc_entry p = true -> forall fuel args, clash_free_prog fuel p args = true.
+Proof. exact tc_clash_free_prog. Qed.
+Print Assumptions C03_typed_clash_free.
+
+(* The preservation theorem with static hypotheses only: shape (pre_check, focus_wf), chirality-consistent
+   scoping (cs_prog) and static_ok = simply typed (tc_prog && tc_entry) or inside a syntactic guard.
+   Of the 919 in-precondition cases of the quick suite 903 satisfy all of them (the others: 11 fun2core
+   outputs / hand-built programs with an occurrence of the wrong chirality - the capture defect). *)
+Theorem C03_uniquify_focus_preserves_static :
+  forall p q args fuel,
+    pre_check p = true -> focus_wf p = true -> cs_prog p = true -> static_ok p = true -> focus_prog p = Ok q ->
+    good_end (snd (run_core fuel p args)) ->
+    exists fuel', run_fs fuel' q args = run_core fuel p args.
+Proof. exact uniquify_focus_preserves_static. Qed.
+Print Assumptions C03_uniquify_focus_preserves_static.
+
+(* ---- the unrestricted statement is false ---------------------------------------------------------------
+   C03_focus_preserves_statement has only the SHAPE predicates pre_check and focus_wf as hypotheses; they
+   admit ill-typed programs, and on those focusing does change the behaviour on the reference machine.
+   Witness (Proof/FocusRefute.v; a covariable of type i64 used as a consumer of a codata type):
+       codata T { }   def main() { exit (mu a:i64. < mu b:T. (print 7; <5 | b>) | a >_T) }
+   before: prints 7, exit 5;  after focusing: stuck ("exit-operand": the operand is an unforced thunk).
+   It is exactly a kind clash (clash_free_prog = false on the witness).  The true statements are the
+   _partial/_fragment theorems above; a Core type system would replace their clash/guard hypotheses.
+   (The input is ill-typed, so this is no defect of the compiler: the property quantifies over well-typed
+   programs.  But H_focus of Props/C01.v, which repeats this statement, is false as a universal
+   hypothesis; C01_compile_correct_focus_discharged_partial does not use it.) *)
+Theorem C03_focus_preserves_statement_refuted : ~ C03_focus_preserves_statement.
+Proof. exact focus_preserves_statement_refuted. Qed.
+Print Assumptions C03_focus_preserves_statement_refuted.
